@@ -23,6 +23,8 @@ var c14Programs = []string{
 	"{{ o.a }}{{ o.b }}",
 	"{{ o.str() }}",
 	"{{ {id: x, ID: y, Id: \"z\"} }}",
+	"{{ o.iD }}{{ o[\"Id\"] }}",
+	"{{ {url: x, URL: y, uRL: 1}[\"Url\"] }}",
 	"@dump({id: 1, ID: 2, iD: 3})",
 }
 
